@@ -48,7 +48,16 @@ func runC20(r *run) {
 					ops = append(ops, "D:"+g.pick([]string{"0", "1"}))
 				case 8:
 					ver++
-					ops = append(ops, "W:"+hxe(nm)+":"+hxe(fmt.Sprintf("V%d", ver)))
+					switch g.intn(4) {
+					case 0:
+						// a file that stops compiling, and (next time round) compiles again
+						ops = append(ops, "W:"+hxe(nm)+":"+hxe(g.pick([]string{"{% if %}", "{{ }", "{% nosuchtag %}", "{# open"})))
+					case 1:
+						// the broken file is repaired
+						ops = append(ops, "W:"+hxe("bad.tpl")+":"+hxe(fmt.Sprintf("R%d", ver)))
+					default:
+						ops = append(ops, "W:"+hxe(nm)+":"+hxe(fmt.Sprintf("V%d", ver)))
+					}
 				case 9:
 					ops = append(ops, "RF:"+hxe(nm))
 				}
